@@ -678,7 +678,7 @@ fn main() {
                 for idx in r {
                     // element-wise / data-move operations need no conditioning analysis: they also get special (non-NaN) operands
                     let words = if exact_class(&tapi[ids[idx as usize] as usize]) > 0 { special_finite() } else { moderate() };
-                    let st = (any::<u32>(), proptest::collection::vec(words, NW)).prop_map(move |(ps, a)| {
+                    let st = (any::<u32>(), lattice::with_related_operands(proptest::collection::vec(words, NW).boxed(), 32)).prop_map(move |(ps, a)| {
                         let mut v = vec![idx, ps as u64];
                         v.extend(a);
                         v
